@@ -204,7 +204,7 @@ static bool leading_minors_benign(const RM& A)
 }
 
 // ------------------------------------------------------------------------------------------------------------------
-static void check_determinant(Rng& rng, const RM& A, const char* kind)
+static void check_determinant(Rng& rng, const RM& A, const char* kind, bool rows_rescaled = false)
 {
 	unsigned n = A.r;
 	Matrix M   = to_lib(A);
@@ -212,7 +212,8 @@ static void check_determinant(Rng& rng, const RM& A, const char* kind)
 	ld ref	   = det_expand(W);
 	ld perm	   = perm_abs(W);
 	double det = M.Determinant();
-	double tol = K_DET * n * EPS * (double) perm;
+	// (+ the spacing of subnormal numbers per term of the expansion, for determinants at the lower end of the format)
+	double tol = K_DET * n * EPS * (double) perm + 5040 * 4.9406564584124654e-324;
 	judge("determinant-vs-reference", (double) fabsl((ld) det - ref), tol, [&] { return mat_json(A, kind).d("Determinant", det).d("reference", (double) ref).d("permanent_of_abs", (double) perm); });
 	// cross-check of the reference itself with the pivoted elimination (also long double)
 	{
@@ -246,7 +247,28 @@ static void check_determinant(Rng& rng, const RM& A, const char* kind)
 		double ds = to_lib(B).Determinant();
 		judge("determinant-changes-sign-under-row-swap", std::fabs(ds + det), 2 * tol, [&] { return mat_json(A, kind).i("row1", r1).i("row2", r2).d("det(M)", det).d("det(swapped)", ds); });
 	}
+	// a reference to a row that was handed out before Determinant()/Invertible() were called, and is written through afterwards: the next call must see
+	// the matrix as it is now (seeded change C05-r6m2 remembered the determinant until the next non-const member call)
+	if(n >= 2 && !rows_rescaled)
+	{
+		Matrix H = to_lib(A);
+		unsigned i = rng.below(n), j = rng.below(n);
+		std::vector<double>& row = H[i];
+		double before = H.Determinant();
+		bool inv0	  = H.Invertible();
+		(void) inv0;
+		double nv = (A(i, j) == 0.0) ? 1.0 : (rng.coin() ? -2.0 * A(i, j) : 0.0);
+		row[j]	  = nv;
+		RM B	  = A;
+		B(i, j)	  = nv;
+		LM WB	  = widen(B);
+		ld refB	  = det_expand(WB);
+		double after = H.Determinant();
+		judge("determinant-after-write-through-a-retained-row-reference", (double) fabsl((ld) after - refB), K_DET * n * EPS * (double) perm_abs(WB), [&] { return mat_json(A, kind).i("row", i).i("column", j).d("new_entry", nv).d("Determinant_before", before).d("Determinant_after", after).d("reference_after", (double) refB); });
+		require("invertible-iff-determinant-nonzero", H.Invertible() == (after != 0.0), [&] { return mat_json(B, kind).d("Determinant", after).i("Invertible", H.Invertible()); });
+	}
 	// multiplicativity with a second random matrix of the same size
+	if(!rows_rescaled)
 	{
 		double dummy;
 		RM B  = gen_square(rng, n, rng.irange(0, NKINDS - 1), dummy);
@@ -271,6 +293,41 @@ static void case_determinant(Rng& rng, uint64_t index)
 	if(n >= 3 && !leading_minors_benign(A))
 		mark_nontrivial();
 	check_determinant(rng, A, kind_name(kind));
+	ld amax = maxabs(widen(A));
+	// the same matrix at the lower end of the format: scaled by an exact power of two so that the determinant is a subnormal number - still non-zero, so
+	// the matrix is invertible (seeded change C05-r6m3 compared |det| with the smallest normal number)
+	if(index % 9 == 4 && amax > 0)
+	{
+		ld d0 = fabsl(det_expand(widen(A)));
+		if(d0 > 0)
+		{
+			int e = (int) std::lround((-(double) rng.irange(1030, 1068) - (double) log2l(d0)) / n);
+			RM B  = A;
+			for(auto& x : B.a)
+				x = std::ldexp(x, e);
+			double db = to_lib(B).Determinant();
+			ld refb	  = det_expand(widen(B));
+			if(fabsl(refb) >= 0x1p-1070L && fabsl(refb) < 0x1p-1023L)
+			{
+				judge("determinant-vs-reference", (double) fabsl((ld) db - refb), K_DET * n * EPS * (double) perm_abs(widen(B)) + 5040 * 4.9406564584124654e-324, [&] { return mat_json(B, kind_name(kind)).d("Determinant", db).d("reference", (double) refb); });
+				bool inv = to_lib(B).Invertible();
+				require("invertible-iff-determinant-nonzero", inv == (db != 0.0), [&] { return mat_json(B, kind_name(kind)).d("Determinant", db).i("Invertible", inv); });
+				mark_nontrivial();
+			}
+		}
+	}
+	// one row made of subnormal numbers, the others scaled up (all by exact powers of two, every partial product of the expansion stays a normal number):
+	// the determinant is an ordinary number to which the subnormal entries contribute in full (seeded change C05-r6m1 flushed subnormal entries to zero
+	// in the constructor that Sub_Matrix uses)
+	if(n == 3 && index % 5 == 2 && amax >= 1e-3L && amax <= 1e3L)
+	{
+		RM B = A;
+		int sdown = rng.irange(1030, 1045), r_sub = rng.irange(0, 2);
+		for(unsigned i = 0; i < 3; i++)
+			for(unsigned j = 0; j < 3; j++)
+				B(i, j) = std::ldexp(A(i, j), (int) i == r_sub ? -sdown : 500);
+		check_determinant(rng, B, kind_name(kind), true);
+	}
 	if(kind == TRIANGULAR || kind == DIAGONAL)
 	{
 		ld prod = 1;
